@@ -15,6 +15,7 @@ deriving instance FromJson, ToJson for Term
 deriving instance FromJson, ToJson for LabelSelector
 deriving instance FromJson, ToJson for Resources
 deriving instance FromJson, ToJson for Container
+deriving instance FromJson, ToJson for Override
 deriving instance FromJson, ToJson for Node
 deriving instance FromJson, ToJson for Template
 deriving instance FromJson, ToJson for LastTerm
